@@ -8,6 +8,7 @@ package main
 import (
 	"context"
 	"fmt"
+	"net"
 	"sort"
 	"strconv"
 	"strings"
@@ -337,4 +338,65 @@ func riConcurrent(rng *RNG) string {
 		r.MarkAvailable()
 	}
 	return fmt.Sprintf("ri conc callers=%d rounds=%d winners=%d..%d ok", g, rounds, minWinners, maxWinners)
+}
+
+// dialOnceScenario (C20): several regions of one regionserver are first used while the shared
+// connection is still being dialled: each establisher calls Dial on the one cached region client.
+// The server must be dialled once, whatever the number of concurrent callers, and again never.
+func dialOnceScenario(rng *RNG) string {
+	g := 2 + rng.Intn(6)
+	var mu sync.Mutex
+	dials := 0
+	release := make(chan struct{})
+	var conns []*VConn
+	dialer := func(ctx context.Context, network, addr string) (net.Conn, error) {
+		mu.Lock()
+		dials++
+		mu.Unlock()
+		<-release
+		v := newVConn()
+		mu.Lock()
+		conns = append(conns, v)
+		mu.Unlock()
+		return v, nil
+	}
+	rc := region.NewClient("rs:1", region.RegionClient, 2, 0, "verif", time.Hour, nil, dialer, discardLogger)
+	var wg sync.WaitGroup
+	errs := make([]error, g)
+	for i := 0; i < g; i++ {
+		wg.Add(1)
+		go func(i int) {
+			defer wg.Done()
+			errs[i] = rc.Dial(context.Background())
+		}(i)
+	}
+	time.Sleep(time.Duration(1+rng.Intn(20)) * time.Millisecond)
+	mu.Lock()
+	during := dials
+	mu.Unlock()
+	close(release)
+	wg.Wait()
+	later := rc.Dial(context.Background())
+	mu.Lock()
+	total := dials
+	mu.Unlock()
+	failed := 0
+	for _, e := range errs {
+		if e != nil {
+			failed++
+		}
+	}
+	if later != nil {
+		failed++
+	}
+	rc.Close()
+	open := 0
+	mu.Lock()
+	for _, v := range conns {
+		if !v.Closed() {
+			open++
+		}
+	}
+	mu.Unlock()
+	return fmt.Sprintf("cc dial callers=%d during=%d total=%d failed=%d openafterclose=%d", g, during, total, failed, open)
 }
